@@ -19,6 +19,9 @@ import (
 	"github.com/gardenbed/emerge/internal/vh/ref"
 )
 
+// ruleMore describes what was added to the exploration in the build phase.
+const ruleMore = "; the injected error is plain, wraps a ParseError of its own, or is joined; evaluation results are tagged values, nil or integers"
+
 func TestMain(m *testing.M) { rec.Main(m, "C18") }
 
 const rule = "valid specification models under random layouts, and a drawn step k and callback kind (token, production, evaluation) at which the callback fails; oracle: the recorded sequence of token and production callbacks equals the post-order " +
@@ -318,7 +321,7 @@ func isResultOf(v any, id int) bool {
 }
 
 func TestCallbacks(t *testing.T) {
-	rec.Rule(rule)
+	rec.Rule(rule + ruleMore)
 	opts := gen.SpecOpts{MaxRules: 3, Depth: 4, Literals: []string{"a", "b", `\"`}, Tokens: []string{"TK", "NUM"}, Directives: 3, RuleHandles: true, DupRules: true, EmptyRules: true}
 	rec.Check(t, 2500, 120000, func(t *rapid.T) {
 		var text string
